@@ -802,13 +802,13 @@ class WriterTranslator:
             if fn in self.enc_tables and len(args) == 1 and is_simple_source(args[0]):
                 return f".enumEnc {lean_str(fn)}", raw(args[0])
             if fn == "get" and len(args) == 1 and args[0][0] == "str" and fn in lambdas:
-                return f".smry {lean_str(args[0][1][1:-1])} false", ""
+                return f".smry {lean_str(args[0][1][1:-1])} false", args[0][1][1:-1]
             if fn in lambdas and all(a[0] == "chr" for a in args):
                 keys = self.format_keys(lambdas[fn], [a[1][1:-1] for a in args])
                 if keys and len(keys) == 1:
-                    return f".smry {lean_str(keys[0])} false", ""
+                    return f".smry {lean_str(keys[0])} false", keys[0]
                 if keys and len(keys) == 2:
-                    return f".smryPI {lean_str(keys[0])} {lean_str(keys[1])}", ""
+                    return f".smryPI {lean_str(keys[0])} {lean_str(keys[1])}", keys[0] + "|" + keys[1]
             if is_simple_source(e) and fn not in ("swprop", "scprop", "get") and fn not in lambdas \
                     and not re.search(r"\bM::|\bunits\b|\bunit_system\b", raw(e)):
                 return ".id", raw(e)       # value computed by a local helper without unit conversion
@@ -818,7 +818,7 @@ class WriterTranslator:
         if e[0] == "unary" and e[1] == "-":
             inner = strip_paren(e[2])
             if inner[0] == "call" and inner[1] == ("name", "get") and len(inner[2]) == 1 and inner[2][0][0] == "str" and "get" in lambdas:
-                return f".smry {lean_str(inner[2][0][1][1:-1])} true", ""
+                return f".smry {lean_str(inner[2][0][1][1:-1])} true", inner[2][0][1][1:-1]
         if e[0] == "tern":
             a, b = self.const_int(e[2], aliases), self.const_int(e[3], aliases)
             fa, fb = num_value(e[2]), num_value(e[3])
@@ -1412,6 +1412,16 @@ def parse_class_enums(toks, names):
     return out
 
 
+def member_types(toks):
+    """`float name;` / `double name{};` / `int name;` / `bool name;` declarations of a struct -> {name: type}"""
+    out = {}
+    for i in range(1, len(toks) - 2):
+        if toks[i][1] in ("float", "double", "int", "bool") and toks[i + 1][0] == "id" and toks[i - 1][1] in (";", "{", "}", ":") \
+                and toks[i + 2][1] in (";", "{", "="):
+            out[toks[i + 1][1]] = toks[i][1]
+    return out
+
+
 def file_level_aliases(toks):
     al = {"VI": VI_PREFIX}
     al.update({k: v for k, v in collect_aliases(toks).items() if k in ("VI", "M")})
@@ -1462,6 +1472,13 @@ def translate(repo):
         decoders.update(parse_decoders(toks))
         rt = ReaderTranslator(res, file_level_aliases(toks))
         rt.constructor(toks, cname, dict(rt.file_aliases, **collect_aliases(toks)), prefix)
+        hpath, htoks = load(repo, rel[:-4] + ".hpp")
+        sources.append(hpath)
+        mt = member_types(htoks)
+        if len(mt) < 10:
+            raise TranslateError(f"{rel[:-4]}.hpp: member declarations not recognised")
+        for r in rt.entries:
+            r["fty"] = mt.get(r["field"][len(prefix):].split(".")[0], "other")
         reader += rt.entries
     if len([r for r in reader if r["idx"] >= 0]) < 90:
         raise TranslateError(f"reader files: only {len(reader)} window reads recognised (expected ≈ 110)")
@@ -1546,11 +1563,11 @@ def render(d):
     o.append("")
     o.append("/-- One entry per read of a restart window in the RstWell / RstConnection constructors. -/")
     o.append("def reader : List REntry := [")
-    o.append(",\n".join(f"  ⟨{lean_str(r['field'])}, {lean_str(r['arr'])}, {lean_str(r['slot'])}, {r['idx']}, {r['post']}, []⟩" for r in d["reader"]) + "]")
+    o.append(",\n".join(f"  ⟨{lean_str(r['field'])}, {lean_str(r['arr'])}, {lean_str(r['slot'])}, {r['idx']}, {r['post']}, [], {lean_str(r.get('fty', 'other'))}⟩" for r in d["reader"]) + "]")
     o.append("")
     o.append("/-- One entry per read of a restart window in LoadRestart.cpp (data::Wells, cumulatives). -/")
     o.append("def loader : List REntry := [")
-    o.append(",\n".join(f"  ⟨{lean_str(r['field'])}, {lean_str(r['arr'])}, {lean_str(r['slot'])}, {r['idx']}, {r['post']}, [" + ", ".join(lean_str(c) for c in r.get("ctx", [])) + "]⟩" for r in d["loader"]) + "]")
+    o.append(",\n".join(f"  ⟨{lean_str(r['field'])}, {lean_str(r['arr'])}, {lean_str(r['slot'])}, {r['idx']}, {r['post']}, [" + ", ".join(lean_str(c) for c in r.get("ctx", [])) + "], \"double\"⟩" for r in d["loader"]) + "]")
     o += ["", "end OpmVerif.Gen.RstSlots", ""]
     return "\n".join(o)
 
